@@ -174,11 +174,10 @@ def integrate_spin(expr: Expr, target_idx: str, target_spin: str) -> Expr:
 
         # - form all unique valid combinations of idx_maps while checking
         #   for contradictions
-        combinations = []
+        #   start from the empty assignment (neutral element), such that
+        #   terms without any object of known spin blocks are not dropped
+        combinations = [{"a": set(), "b": set()}]
         for tensor_spin_idx_maps in term_spin_idx_maps:
-            if not combinations:  # initialize combinations
-                combinations.extend(tensor_spin_idx_maps)
-                continue
             old_combinations = combinations.copy()
             combinations.clear()
             for idx_map, addition in \
